@@ -15,7 +15,7 @@ import (
 
 func init() {
 	Register(&Rule{ID: "DIFFENTRY", Props: []string{"C06", "C07"}, Min: 4,
-		Doc: "(1) in DiffIter, DiffLinks, StartDiff and every function between them and the creation of the diff state no success return (nil error constant) is reachable without a preceding call that creates the diff state: the entry points do not answer 'no differences' on their own; " +
+		Doc: "(1) in DiffIter, DiffLinks, StartDiff and every function between them and the creation of the diff state no success return (nil error constant) is reachable without a preceding call that creates the diff state — and, in the function that drives the steps, without a preceding step (diffOne): the entry points do not answer 'no differences' on their own; " +
 			"(2) every function returning a *diffState returns an object allocated by that very call, and the memo maps stored into it there are made by that call: no pooling, no package-level state; " +
 			"(3) where such a function hands a tree's root (Mast.root) to a stack, the callee tests the root for being an entry-less in-memory node (isEmpty) first: the placeholder root of a tree loaded from an empty Root belongs to no version and has no name.",
 		Run: runDIFFENTRY})
@@ -57,6 +57,10 @@ func runDIFFENTRY(c *Ctx) {
 		}
 		return false
 	}
+	step := c.P.MastFunc("(*Mast).diffOne")
+	if step == nil {
+		step = roleFunc(c.P, "(*Mast).diffOne")
+	}
 	// (1)
 	// the entry points, and every function between them and the creation of the state (the engine `diff`)
 	var chainFns []*ssa.Function
@@ -95,6 +99,21 @@ func runDIFFENTRY(c *Ctx) {
 		for _, ci := range CallsOf(fn) {
 			if reachesCtor(ci) {
 				engine = append(engine, ci)
+			}
+		}
+		// a function that drives the steps itself (the loop around diffOne) may report success only after a step
+		// has run: "nothing to do" is the step function's answer (its stop sentinel), not a test of the stacks
+		if step != nil {
+			var steps []ssa.CallInstruction
+			for _, ci := range CallsOf(fn) {
+				for _, callee := range c.Facts.Callees(ci) {
+					if callee == step {
+						steps = append(steps, ci)
+					}
+				}
+			}
+			if len(steps) > 0 {
+				engine = steps
 			}
 		}
 		if len(engine) == 0 {
